@@ -77,6 +77,35 @@ def build(shape, assign, cfg, ctx='alone', small_domain=False, repr=None, discr=
                 expect='accept', run=True, depth=depth)
 
 
+def build_many(nv, cfg):
+    """more variants than a byte can number: the data fed must still tell every pair of variants apart"""
+    payload = {3: 't', 130: 'n', nv - 41: 't', nv - 37: 'n', nv - 1: 't'}
+    decl, vals, arms = [], [], []
+    for i in range(nv):
+        k = payload.get(i)
+        if k == 't':
+            decl.append('V%d(V)' % i)
+            vals += ['Ty::V%d(V(0))' % i, 'Ty::V%d(V(1))' % i]
+            arms.append('Ty::V%d(a) => (%d, a.0)' % (i, i))
+        elif k == 'n':
+            decl.append('V%d { f0: V }' % i)
+            vals += ['Ty::V%d { f0: V(0) }' % i, 'Ty::V%d { f0: V(1) }' % i]
+            arms.append('Ty::V%d { f0 } => (%d, f0.0)' % (i, i))
+        else:
+            decl.append('V%d' % i)
+            vals.append('Ty::V%d' % i)
+            arms.append('Ty::V%d => (%d, 0)' % (i, i))
+    traits = 'Hash' if cfg == 'H' else 'PartialEq, Hash'
+    src = '#[derive(Educe, Debug)]\n#[educe(%s)]\npub enum Ty {\n%s}\n' % (traits, ''.join('    %s,\n' % d for d in decl))
+    src += 'fn values() -> Vec<Ty> {\n    vec![\n%s    ]\n}\n' % ''.join('        %s,\n' % v for v in vals)
+    src += 'fn key(x: &Ty) -> (u16, u8) {\n    match x {\n%s    }\n}\n' % ''.join('        %s,\n' % a for a in arms)
+    src += ('pub fn check(r: &mut Rep) {\n    let vs = values();\n    let ts: Vec<Vec<String>> = vs.iter().map(|x| trace_of(x).unwrap()).collect();\n'
+            '    for i in 0..vs.len() {\n        for j in 0..vs.len() {\n            let same = key(&vs[i]) == key(&vs[j]);\n'
+            '            r.ck((ts[i] == ts[j]) == same, same as u64, &|| format!("hash: {:?} and {:?} {} on variant and fields but fed {:?} and {:?}", vs[i], vs[j], '
+            'if same { "agree" } else { "differ" }, ts[i], ts[j]));\n        }\n    }\n}\n')
+    return Case('C05|%s|many|%d' % (cfg, nv), src, {'cfg': cfg, 'variants': nv, 'values': len(vals)}, expect='accept', run=True, depth=1)
+
+
 def generate(tier):
     cases = []
     if tier == 'quick':
@@ -111,9 +140,35 @@ def generate(tier):
     for sh in VERYWIDE:
         for assign in verywide_assignments(sh, 'cim'):
             cases.append(build(sh, assign, 'H', small_domain=True, probe=PROBE))
+    # two named variants that use the same field names at different positions (V0 {f0, f1}, V1 {f1, f0})
+    for sh in [S.Shape('enum', [S.Fields('n', 2), S.Fields('n', 2)]), S.Shape('enum', [S.Fields('t', 1), S.Fields('n', 2)]), S.Shape('enum', [S.Fields('n', 1), S.Fields('u'), S.Fields('n', 3)])]:
+        for assign in assignments(sh, 'cim'):
+            for cfg in ('H', 'HP'):
+                with S.naming('rot'):
+                    c = build(sh, assign, cfg)
+                c.key += '|rot'
+                cases.append(c)
+    for nv in (256, 257, 300):
+        cases.append(build_many(nv, 'H' if nv != 257 else 'HP'))
+    from .common import zoo_cases
+    cases += zoo_cases('C05', 'Hash', 'Debug, Clone, PartialEq', 'Debug, Clone, PartialEq, Hash',
+                       '    for (i, (a, ta)) in vs.iter().enumerate() {\n'
+                       '        let same_as_std = trace_of(a).unwrap() == trace_of(ta).unwrap();\n'
+                       '        if !IS_ENUM { r.ck(same_as_std, 0, &|| format!("value #{}: feeds {:?}, #[derive(Hash)] feeds {:?}", i, trace_of(a).unwrap(), trace_of(ta).unwrap())); }\n'
+                       '        for (j, (b, tb)) in vs.iter().enumerate() {\n'
+                       '            let eq = trace_of(a).unwrap() == trace_of(b).unwrap();\n'
+                       '            r.ck(eq == (ta == tb), 1 + (ta == tb) as u64, &|| format!("values #{} and #{}: equal hash input {}, equal values {}", i, j, eq, ta == tb));\n        }\n    }\n')
+    for c in cases:
+        if c.key.startswith('C05|zoo|'):
+            c.body = c.body.replace('pub fn check(', 'const IS_ENUM: bool = %s;\npub fn check(' % ('true' if c.key.endswith('|en') else 'false'))
     from .common import rawify
     for c in [x for x in cases if x.key.startswith('C05|H|s:n2|') or x.key.startswith('C05|HP|e:n2,n1|')]:
         r_ = rawify(c)
+        if r_:
+            cases.append(r_)
+    from .common import underscorify
+    for c in [x for x in cases if (x.key.startswith('C05|H|s:n2|') or x.key.startswith('C05|HP|e:n2,n1|') or x.key.startswith('C05|H|e:n2|') or x.key.startswith('C05|H|s:n3|')) and '|raw' not in x.key]:
+        r_ = underscorify(c)
         if r_:
             cases.append(r_)
     for sh in S.struct_shapes(2) + S.enum_shapes(2, 1) + [S.Shape('enum', [S.Fields('t', 2), S.Fields('n', 2)]),
